@@ -52,10 +52,12 @@ ITEMS = ["group_PDB", "id", "type_symbol", "label_atom_id", "label_alt_id", "lab
          "pdbx_PDB_model_num"]
 
 
-def cif_text(rows):
-    """rows: dicts with group,id,name,alt,comp,asym,seq,icode,x,y,z,charge,model,labelseq,element"""
+def cif_text(rows, omit=()):
+    """rows: dicts with group,id,name,alt,comp,asym,seq,icode,x,y,z,charge,model,labelseq,element; omit: optional items left
+    out of the loop altogether"""
+    keep = [i for i, it in enumerate(ITEMS) if it not in omit]
     out = [cif_header(), "loop_"]
-    out += [f"_atom_site.{it} " for it in ITEMS]
+    out += [f"_atom_site.{ITEMS[i]} " for i in keep]
 
     def q(s):
         return f'"{s}"' if ("'" in s) else s
@@ -63,7 +65,7 @@ def cif_text(rows):
         vals = [r["group"], r["id"], r.get("element", "C"), q(r["name"]), r["alt"] or ".", r["comp"], r["asym"], "1",
                 str(r.get("labelseq", 1)), r["icode"] or "?", r["x"], r["y"], r["z"], "1.00", "20.00", r["charge"] or "?",
                 r["seq"], r["comp"], r["asym"], q(r["name"]), str(r.get("model", 1))]
-        out.append(" ".join(vals) + " ")
+        out.append(" ".join(vals[i] for i in keep) + " ")
     out.append("#")
     return "\n".join(out) + "\n"
 
@@ -186,6 +188,12 @@ def structures(rng):
     m2 = gen.transform(m1, t=(0.4, -0.3, 0.2))
     out.append(("two-models-8-9", rows_from(m1, model=8) + rows_from(m2, model=9, start_id=len(m1) + 1)))
     out.append(("two-models-9-10", rows_from(m1, model=9) + rows_from(m2, model=10, start_id=len(m1) + 1)))
+    # rows of the two models not contiguous (entity-major order: each row carries its own model number)
+    w1 = gen.water((6, 14, 4), resseq=101) + gen.water((-5, 10, 3), resseq=102)
+    w2 = gen.transform(w1, t=(0.4, -0.3, 0.2))
+    n1, nw = len(m1), len(w1)
+    out.append(("two-models-interleaved", rows_from(m1, model=1) + rows_from(m2, model=2, start_id=n1 + nw + 1)
+                + rows_from(w1, model=1, start_id=n1 + 1) + rows_from(w2, model=2, start_id=2 * n1 + nw + 1)))
     return out
 
 
@@ -217,11 +225,11 @@ def parse_pqr(text):
 def _struct_job(job):
     from .. import runner
 
-    name, rows, ff, conv = job
+    name, rows, ff, conv, *rest = job
     wd = os.path.join(core.VERIF, ".work", f"c10s-{os.getpid()}")
     os.makedirs(wd, exist_ok=True)
     open(os.path.join(wd, "s.pdb"), "w").write(pdb_text_of(rows))
-    open(os.path.join(wd, "s.cif"), "w").write(cif_text(rows))
+    open(os.path.join(wd, "s.cif"), "w").write(cif_text(rows, omit=rest[0] if rest else ()))
     res = {}
     for enc in ("pdb", "cif"):
         with _Shim(conv):
@@ -293,9 +301,17 @@ def run(ctx):
         for ff in (["AMBER"] if ctx.quick else ["AMBER", "PARSE", "CHARMM"]):
             for conv in ("pdbx2", "verbatim"):
                 sjobs.append((name, rows, ff, conv))
+    # optional items left out of the loop where the structure does not need them
+    byname = dict(structures(random.Random(ctx.seed)))
+    # (only the two items the reader treats as optional; a file without occupancy / B factor / formal charge columns is
+    # refused loudly with ValueError, which is C12's business, not a silent difference)
+    for name, omit in (("plain", ["pdbx_PDB_ins_code"]), ("plain", ["label_alt_id"]), ("negative-numbers", ["pdbx_PDB_ins_code", "label_alt_id"]),
+                       ("wide-coordinates", ["pdbx_PDB_ins_code"]), ("four-character-names", ["label_alt_id"])):
+        for conv in ("pdbx2", "verbatim"):
+            sjobs.append((f"{name} without {'+'.join(omit)}", byname[name], "AMBER", conv, omit))
     sres = core.pmap(_struct_job, sjobs, chunksize=1)
     plain = traces[0]["f"]
-    for (name, rows, ff, conv), res in zip(sjobs, sres):
+    for (name, rows, ff, conv, *_omit), res in zip(sjobs, sres):
         ctx.evaluations += 1
         what = f"structure {name} ff={ff} convention={conv}"
         if not res["pdb"]["ok"]:
@@ -308,6 +324,25 @@ def run(ctx):
             continue
         traces.append({"id": len(traces) + 1, "kind": "structure", "f": plain, "obs": {"type": ""}, "pdb": {"type": ""},
                        "a1": res["pdb"]["atoms"], "a2": res["cif"]["atoms"], "what": what, "structure": name, "conv": conv})
+    # several files in one process: a file without an optional column, then one that uses it (and the other way round)
+    from . import c11
+    fd = os.path.join(ctx.work, "hist")
+    os.makedirs(fd, exist_ok=True)
+    open(os.path.join(fd, "x1.cif"), "w").write(cif_text(byname["plain"], omit=["pdbx_PDB_ins_code"]))
+    open(os.path.join(fd, "x1.pdb"), "w").write(pdb_text_of(byname["plain"]))
+    open(os.path.join(fd, "x2.cif"), "w").write(cif_text(byname["insertion-codes"]))
+    open(os.path.join(fd, "x2.pdb"), "w").write(pdb_text_of(byname["insertion-codes"]))
+    hc = {k: {"input": f, "args": ["--ff=AMBER"]} for k, f in (("X1", "x1.cif"), ("X2", "x2.cif"), ("X1P", "x1.pdb"), ("X2P", "x2.pdb"))}
+    hres = core.pmap(c11._work, [(h, 0, False, fd, hc) for h in (["X1P"], ["X2P"], ["X1", "X2"], ["X2", "X1"], ["X1", "X1", "X2"])], procs=5)
+    want = {"X1": hres[0]["runs"][0]["atoms"] if hres[0]["runs"] else "?", "X2": hres[1]["runs"][0]["atoms"] if hres[1]["runs"] else "?"}
+    for o in hres[2:]:
+        hist = [r_["cfg"] for r_ in o["runs"]]
+        for k, r_ in enumerate(o["runs"]):
+            ctx.evaluations += 1
+            traces.append({"id": len(traces) + 1, "kind": "structure", "f": plain, "obs": {"type": ""}, "pdb": {"type": ""},
+                           "a1": [[want[r_["cfg"]]]], "a2": [[r_["atoms"]]], "what": f"{r_['cfg']} as run #{k + 1} of {hist} in one process (digests of the atom records)",
+                           "structure": f"history {'>'.join(hist[:k + 1])}", "conv": "pdbx2"})
+            ctx.nontrivial.add(traces[-1]["what"])
     tf = core.write_json(os.path.join(ctx.work, "tr.json"), [{k: t[k] for k in ("id", "kind", "f", "obs", "pdb", "a1", "a2")} for t in traces])
     open(cfg, "w").write(cfg_text(CODE_CONSTS, "FALSE", "Report", spec="TSpec"))
     r = core.run_tlc("CifColumnsTrace", cfg, ctx.work, workers=8, env={"TRACE_FILE": tf}, timeout=1200, heap="8g")
